@@ -37,8 +37,8 @@ Definition olz_eqb := option_eqb zlist_eqb.
 (* finding classes (open; class 1, right-associative relational operators, was repaired in /repo e62d085):
    2 = hex / legacy-octal literal >= 2^63   3 = \\uD800-\\uDFFF escapes become U+FFFD
    (4 = octal escape above \\377 and 5 = backslash + LS/PS were repaired in /repo 96a7b64)
-   11, 12, 14, 15 = pinned witnesses (comment with line terminator, numeric property name,
-   detached regexp flags, Function-constructor parameter text ending in a // comment).  Classes 6-10 and 13 (no-in relational operand) were repaired in
+   11, 12, 14 = pinned witnesses (comment with line terminator, numeric property name,
+   detached regexp flags; 15, a Function-constructor parameter text ending in a // comment, was repaired in 1ec2834).  Classes 6-10 and 13 (no-in relational operand) were repaired in
    /repo; their witnesses are now CProg regression cases that accept only the ES5 tree. *)
 Definition verdict (c : case) : Z * Z :=
   match c with
